@@ -393,6 +393,12 @@ theorem growLevels_length (ls : List Nat) (n : Nat) : ls.length ≤ (growLevels 
   · simp; omega
   · omega
 
+theorem growLevels_length_eq (ls : List Nat) (n : Nat) (h : ls.length ≤ n) : (growLevels ls n).length = n := by
+  unfold growLevels
+  split
+  · simp; omega
+  · omega
+
 theorem growLevels_getD (ls : List Nat) (n i : Nat) (hi : i < ls.length) : (growLevels ls n).getD i 0 = ls.getD i 0 := by
   unfold growLevels
   split
